@@ -33,6 +33,21 @@
   the concrete values of `head`, `tail`, `next` are DERIVED from it and checked against
   every logged access (so the abstraction is validated on every run; that it is the right
   abstraction of mpsc_fifo.h for any interleaving is C15's theorem `Mpsc.pop_is_next_in_order`).
+
+  Ghost state and guards that are ASSUMPTIONS about the environment (each is checked on every
+  validated trace; none changes which accesses of the mutex code the model accepts):
+    * `owner`: set at the acquire points (uncontended fetch_sub, successful CAS, the waker's
+      `head := next` on behalf of the popped waiter), cleared by the release fetch_add.
+    * `waking`: set by the pop (`w head`), cleared by the waker's last access to the woken
+      fiber's `state` word (right before `fiber_manager_schedule`).  `ret lock` of a parked
+      fiber requires `owner = some f ∧ waking = false`: a parked fiber runs only after it was
+      scheduled (runtime property, C01).  Without this guard the model would let the woken
+      fiber unlock — and pop — while its waker is still inside `mpsc_fifo_trypop`.
+    * client grammar of the harness: `cs enter` only when not already inside, `cs exit` only
+      when inside, `call unlock` only by the owner and after `cs exit`.
+    * `data` / `seen`: the harness's protected plain cell `shared` (read at `cs enter`,
+      written `+1` at `cs exit`, whose note carries the value written): a lost update or a
+      stale read makes the trace diverge from the model.
 -/
 import LibfiberVerif.Core.Sys
 import LibfiberVerif.Core.Event
